@@ -117,7 +117,7 @@ func (ex *Exec) step(st *State, in ssa.Instruction) {
 		et := x.Type().Underlying().(*types.Slice).Elem()
 		r := ex.newRef(st, "arr")
 		c := g.arrComp(et)
-		g.set(st, c, fmt.Sprintf("(store %s %s ((as const (Array Int %s)) %s))", g.get(st, c), r, g.sortOf(et), g.zero(et)))
+		g.set(st, c, fmt.Sprintf("(store %s %s %s)", g.get(st, c), r, g.constArray("Int", g.sortOf(et), g.zero(et))))
 		ln := ex.toMathInt(ex.val(x.Len), x.Len.Type())
 		cp := ex.toMathInt(ex.val(x.Cap), x.Cap.Type())
 		ex.safetyOb("makeslice", x.Name(), fmt.Sprintf("(and (>= %s 0) (>= %s %s))", ln, cp, ln))
